@@ -1,4 +1,5 @@
 import IrVerif.Lemmas.SerdeScope
+import IrVerif.Lemmas.SerdeDict
 /-! C02 stage B: the graph level (phases of `_deserialize_graph`, pieces of `serialize_graph_into`). -/
 namespace IrVerif.Serde
 open IrVerif.Proto
@@ -336,16 +337,93 @@ def gOutT (names : List String) (vi : ValueInfoP) : IRGOut :=
   | some i => .tbl i
   | none => .dangling (applyInfoT (IRValue.blank vi.name) vi)
 
-theorem desGraphOutputs_spec : ∀ (outputs : List ValueInfoP) (tbl : List IRValue),
-    outputs.all wfVI = true → (outputs.map (·.name)).Nodup → (tableNames tbl).Nodup →
+/-- what the output phase does to a value in general (E4: several entries may carry its name): every
+entry of its name is applied, in order -/
+def outUpdAll (outputs : List ValueInfoP) (v : IRValue) : IRValue :=
+  (outputs.filter (fun vi => vi.name = v.name)).foldl applyInfoT v
+
+@[simp] theorem outUpdAll_name (outputs : List ValueInfoP) (v : IRValue) :
+    (outUpdAll outputs v).name = v.name := foldl_applyInfoT_name _ v
+
+/-- entries with one name are identical -/
+def ConsOut (outputs : List ValueInfoP) : Prop :=
+  ∀ a ∈ outputs, ∀ b ∈ outputs, a.name = b.name → a = b
+
+theorem consOutputs_iff {l : List ValueInfoP} : consOutputs l = true ↔ ConsOut l := by
+  induction l with
+  | nil => simp [consOutputs, ConsOut]
+  | cons x xs ih =>
+    simp only [consOutputs, Bool.and_eq_true, List.all_eq_true, decide_eq_true_eq, ih]
+    constructor
+    · rintro ⟨h1, h2⟩ a ha b hb hn
+      rcases List.mem_cons.1 ha with ea | ha' <;> rcases List.mem_cons.1 hb with eb | hb'
+      · rw [ea, eb]
+      · rw [ea] at hn ⊢; exact (h1 b hb' hn.symm).symm
+      · rw [eb] at hn ⊢; exact h1 a ha' hn
+      · exact h2 a ha' b hb' hn
+    · intro h
+      exact ⟨fun w hw hn => h w (List.mem_cons_of_mem _ hw) x List.mem_cons_self hn,
+        fun a ha b hb hn => h a (List.mem_cons_of_mem _ ha) b (List.mem_cons_of_mem _ hb) hn⟩
+
+theorem consOut_of_nodup {l : List ValueInfoP} (h : (l.map (·.name)).Nodup) : ConsOut l := by
+  intro a ha b hb hn
+  induction l with
+  | nil => cases ha
+  | cons x xs ih =>
+    simp only [List.map_cons, List.nodup_cons] at h
+    rcases List.mem_cons.1 ha with ea | ha' <;> rcases List.mem_cons.1 hb with eb | hb'
+    · rw [ea, eb]
+    · exact absurd (by rw [← ea, hn]; exact List.mem_map_of_mem hb') h.1
+    · exact absurd (by rw [← eb, ← hn]; exact List.mem_map_of_mem ha') h.1
+    · exact ih h.2 ha' hb'
+
+theorem ConsOut.tail {x : ValueInfoP} {xs : List ValueInfoP} (h : ConsOut (x :: xs)) : ConsOut xs :=
+  fun a ha b hb hn => h a (List.mem_cons_of_mem _ ha) b (List.mem_cons_of_mem _ hb) hn
+
+/-- consistent entries: all entries of one name are copies of the first one found -/
+theorem filter_of_consOut {outputs : List ValueInfoP} (h : ConsOut outputs) {vo : ValueInfoP}
+    (hvo : vo ∈ outputs) :
+    ∃ k, outputs.filter (fun vi => vi.name = vo.name) = List.replicate (k + 1) vo := by
+  have hall : ∀ x ∈ outputs.filter (fun vi => vi.name = vo.name), x = vo := by
+    intro x hx
+    obtain ⟨hx1, hx2⟩ := List.mem_filter.1 hx
+    exact h x hx1 vo hvo (by simpa using hx2)
+  have hmem : vo ∈ outputs.filter (fun vi => vi.name = vo.name) := List.mem_filter.2 ⟨hvo, by simp⟩
+  have hrep := List.eq_replicate_iff.2 ⟨rfl, hall⟩
+  have hlen : (outputs.filter (fun vi => vi.name = vo.name)).length ≠ 0 := by
+    intro e
+    rw [List.length_eq_zero_iff] at e
+    rw [e] at hmem; cases hmem
+  exact ⟨(outputs.filter (fun vi => vi.name = vo.name)).length - 1, by
+    rw [hrep]; congr 1; simp only [List.length_replicate]; omega⟩
+
+theorem outUpdAll_of_cons {outputs : List ValueInfoP} (h : ConsOut outputs) (v : IRValue) :
+    outUpdAll outputs v = outUpd outputs v := by
+  unfold outUpdAll outUpd
+  cases hf : outputs.find? (fun vi => vi.name = v.name) with
+  | none =>
+    have : outputs.filter (fun vi => vi.name = v.name) = [] := by
+      rw [List.filter_eq_nil_iff]
+      intro a ha
+      exact List.find?_eq_none.1 hf a ha
+    rw [this]; rfl
+  | some vo =>
+    have hvo : vo ∈ outputs := List.mem_of_find?_eq_some hf
+    have hn : vo.name = v.name := by simpa using List.find?_some hf
+    obtain ⟨k, hk⟩ := filter_of_consOut h hvo
+    rw [hn] at hk
+    rw [hk, foldl_applyInfoT_replicate]
+
+/-- the output phase in general: no condition on the names of the entries -/
+theorem desGraphOutputs_specAll : ∀ (outputs : List ValueInfoP) (tbl : List IRValue),
+    outputs.all wfVI = true → (tableNames tbl).Nodup →
     desGraphOutputs outputs tbl =
-      .ok (outputs.map (gOutT (tableNames tbl)), tbl.map (outUpd outputs))
-  | [], tbl, _, _, _ => by
-    have : outUpd [] = id := by funext v; simp [outUpd]
+      .ok (outputs.map (gOutT (tableNames tbl)), tbl.map (outUpdAll outputs))
+  | [], tbl, _, _ => by
+    have : outUpdAll [] = id := by funext v; simp [outUpdAll]
     simp [desGraphOutputs, this]
-  | vi :: vis, tbl, hwf, hnd, htbl => by
+  | vi :: vis, tbl, hwf, htbl => by
     simp only [List.all_cons, Bool.and_eq_true] at hwf
-    simp only [List.map_cons, List.nodup_cons] at hnd
     have hwt : wfType vi.type = true := by
       have := hwf.1; simp only [wfVI, Bool.and_eq_true] at this; exact this.1
     cases hl : lookupLast (tableNames tbl) vi.name with
@@ -353,24 +431,19 @@ theorem desGraphOutputs_spec : ∀ (outputs : List ValueInfoP) (tbl : List IRVal
       have hupd := listSet_eq_updName htbl hl (fun v => applyInfoT v vi)
       have hnames1 : tableNames (updName tbl vi.name (fun v => applyInfoT v vi)) = tableNames tbl :=
         tableNames_updName _ _ _ (fun _ => rfl)
-      have ih := desGraphOutputs_spec vis (updName tbl vi.name (fun v => applyInfoT v vi)) hwf.2 hnd.2
+      have ih := desGraphOutputs_specAll vis (updName tbl vi.name (fun v => applyInfoT v vi)) hwf.2
         (by rw [hnames1]; exact htbl)
-      have htbl_eq : (updName tbl vi.name (fun v => applyInfoT v vi)).map (outUpd vis)
-          = tbl.map (outUpd (vi :: vis)) := by
+      have htbl_eq : (updName tbl vi.name (fun v => applyInfoT v vi)).map (outUpdAll vis)
+          = tbl.map (outUpdAll (vi :: vis)) := by
         simp only [updName, List.map_map]
         apply List.map_congr_left
         intro v _
         simp only [Function.comp]
         by_cases hvn : v.name = vi.name
-        · have : vis.find? (fun vi' => vi'.name = vi.name) = none := by
-            rw [List.find?_eq_none]
-            intro vi' hvi' hn
-            have hn' : vi'.name = vi.name := by simpa using hn
-            exact hnd.1 (by rw [← hn']; exact List.mem_map_of_mem hvi')
-          rw [if_pos hvn]
-          simp [outUpd, this, hvn]
+        · rw [if_pos hvn]
+          simp [outUpdAll, hvn]
         · have : ¬ vi.name = v.name := fun e => hvn e.symm
-          simp [hvn, outUpd, this]
+          simp [hvn, outUpdAll, this]
       simp only [desGraphOutputs, hl, (applyInfo_eq _ vi hwt).1, bind, Except.bind]
       rw [hupd, ih, hnames1, htbl_eq]
       simp [gOutT, hl]
@@ -379,15 +452,25 @@ theorem desGraphOutputs_spec : ∀ (outputs : List ValueInfoP) (tbl : List IRVal
         intro hm
         obtain ⟨i, hi⟩ := lookupLast_exists hm
         rw [hl] at hi; cases hi
-      have ih := desGraphOutputs_spec vis tbl hwf.2 hnd.2 htbl
-      have htbl_eq : tbl.map (outUpd vis) = tbl.map (outUpd (vi :: vis)) := by
+      have ih := desGraphOutputs_specAll vis tbl hwf.2 htbl
+      have htbl_eq : tbl.map (outUpdAll vis) = tbl.map (outUpdAll (vi :: vis)) := by
         apply List.map_congr_left
         intro v hv
         have : ¬ vi.name = v.name := by
           intro e; exact hnm (by rw [e]; exact List.mem_map_of_mem hv)
-        simp [outUpd, this]
+        simp [outUpdAll, this]
       simp only [desGraphOutputs, hl, (applyInfo_eq _ vi hwt).1, bind, Except.bind, ih, htbl_eq]
       simp [gOutT, hl]
+
+theorem desGraphOutputs_spec (outputs : List ValueInfoP) (tbl : List IRValue)
+    (hwf : outputs.all wfVI = true) (hc : ConsOut outputs) (htbl : (tableNames tbl).Nodup) :
+    desGraphOutputs outputs tbl =
+      .ok (outputs.map (gOutT (tableNames tbl)), tbl.map (outUpd outputs)) := by
+  rw [desGraphOutputs_specAll outputs tbl hwf htbl]
+  congr 2
+  apply List.map_congr_left
+  intro v _
+  exact outUpdAll_of_cons hc v
 
 /-- the IR-version gate lets multi-device fields through -/
 def verAllows : Option Int → Bool
